@@ -13,7 +13,7 @@ STORE_INVS = ["TypeOK", "NeverVersionedFlat", "UniqueVids"]
 def store_consts(**kw):
     c = dict(Buckets={"bkt1", "bkt2"}, KeySetName="nest2", Bodies={"x1", "x2"}, OpNames=CORE_OPS,
              CfgName="plain", MaxVids=0, MaxDepth=0, WithEmpty=False, Ghosts=True,
-             PartNums={1, 2}, PartBodies={"p1", "p2"}, MaxUploads=0, MaxList=2, BadBuckets=set(), AfterRefusal=False)
+             PartNums={1, 2}, PartBodies={"p1", "p2"}, MaxUploads=0, MaxList=2, BadBuckets=set(), AfterRefusal=False, AfterRead=False)
     c.update(kw)
     return c
 
@@ -50,6 +50,17 @@ def c02(tier, seed, work):
                store_consts(Buckets={"bkt1"}, KeySetName="dirkey", Bodies={"x1"}, CfgName="single",
                             OpNames={"PutObject", "GetObject", "HeadObject", "DeleteObject", "DeleteMulti", "CopyObject", "ListObjects"}),
                ["singlemem", "singleos"], **st)
+    # every operation after every HEAD / GET of an object (what a read may have left in a cache must not outlive a write,
+    # a delete, a multi-object delete or a copy)
+    tour_stage(rep, work, "after-reads", "MC_Store",
+               store_consts(Buckets={"bkt1"}, KeySetName="nest2", Bodies={"x1", "x2"}, Ghosts=False, AfterRead=True,
+                            OpNames={"CreateBucket", "PutObject", "GetObject", "HeadObject", "DeleteObject", "DeleteMulti",
+                                     "CopyObject", "ListObjects"}),
+               ALL4, small=True, **st)
+    tour_stage(rep, work, "after-reads-single", "MC_Store",
+               store_consts(Buckets={"bkt1"}, KeySetName="nest2", Bodies={"x1", "x2"}, Ghosts=False, AfterRead=True, CfgName="single",
+                            OpNames={"PutObject", "GetObject", "HeadObject", "DeleteObject", "DeleteMulti", "CopyObject", "ListObjects"}),
+               ["singlemem", "singleos"], small=True, **st)
     # uploads refused after their body was read, in buckets that are empty, hold a neighbour, or do not exist
     tour_stage(rep, work, "refused-uploads", "MC_Store",
                store_consts(KeySetName="nest2", Bodies={"x1"},
@@ -213,6 +224,13 @@ def c03(tier, seed, work):
     # key-value backends: every key set x prefix x delimiter in {none,'/','-','a'} x V1/V2
     tour_stage(rep, work, "kv", "MC_List", list_consts(MaxSet=n), ["mem", "bolt"],
                invariants=["EmitInv", "ListExact"], **common)
+    # three live keys over {/,a,b} (a common prefix standing for two keys followed by a plain key, and the like)
+    tour_stage(rep, work, "kv-three-keys", "MC_List",
+               list_consts(Alphabet={47, 97, 98}, MaxLen=3, MaxSet=3, PrefixLen=1, Delims={0, 47}),
+               ["mem", "bolt"], invariants=["EmitInv"], **common)
+    tour_stage(rep, work, "fs-three-keys", "MC_List",
+               list_consts(Alphabet={47, 97, 98}, MaxLen=3, MaxSet=3, PrefixLen=1, Delims={0, 47}, FsDomain=True),
+               ["multimem"], invariants=["EmitInv"], **common)
     # keys with an empty segment (a//b): legal on the key-value backends; prefixes up to a//
     tour_stage(rep, work, "kv-empty-segments", "MC_List",
                list_consts(Alphabet={47, 97, 98}, MaxLen=4, MaxSet=2, PrefixLen=3, Delims={0, 47}, EmptySegs=True),
@@ -576,7 +594,7 @@ def c16(tier, seed, work):
 def c08(tier, seed, work):
     rep = Report("C08", tier, seed, level="model_checking")
     common = dict(view=None, emit=None, invariants=["EmitInv", "Unchanged"], tlc_workers=4)
-    fp = {0, 1, 2, 3}
+    fp = {0, 1, 2, 3, 4}
     for integ in (True, False):
         tag = "integrity-on" if integ else "integrity-off"
         o = "" if integ else "nointegrity"
@@ -709,6 +727,15 @@ def c15(tier, seed, work):
                store_consts(Buckets={"bkt1"}, KeySetName="hostile5", Bodies={"x1"}, CfgName="single",
                             OpNames={"PutMetaB", "GetObject", "HeadObject", "DeleteObject", "ListObjects"}),
                ["singleos"], reopen=True, **st)
+    # keys named like the fs backends' own scratch files, across a restart
+    tour_stage(rep, work, "reopen-scratch-file-names", "MC_Store",
+               store_consts(Buckets={"bkt1"}, KeySetName="hostile4", Bodies={"x1"},
+                            OpNames={"CreateBucket", "PutObject", "GetObject", "DeleteObject", "ListObjects"}),
+               ["bolt", "multios"], opts="boltsync", reopen=True, **st)
+    tour_stage(rep, work, "reopen-scratch-file-names-single", "MC_Store",
+               store_consts(Buckets={"bkt1"}, KeySetName="hostile4", Bodies={"x1"}, CfgName="single",
+                            OpNames={"PutObject", "GetObject", "DeleteObject", "ListObjects"}),
+               ["singleos", "singlemem"], reopen=True, **st)
     # crash points: every mutating transition killed at each of its mutating file-system calls
     crash_stage(rep, work, "crash-multi", store_consts(Buckets={"bkt1"}, OpNames=CORE_OPS - {"ListBuckets", "HeadBucket"}),
                 ["multimem", "multios"])
